@@ -44,7 +44,7 @@ Definition domain_filter_of (host : option str) : option (list str) :=
   | Some h => (fix find (l : list (str * list str)) :=
                  match l with
                  | [] => None
-                 | (d, ks) :: r => if ends d h then Some ks else find r
+                 | (d, ks) :: r => if str_eqb h d || ends (46 :: d) h then Some ks else find r
                  end) PER_DOMAIN_QUERY_FILTERS
   | None => None
   end.
@@ -168,7 +168,7 @@ Definition normalize_parsed (e : env) (o : n_opts) (original : str) (has_proto :
           let path := if n_quoted o then safely_quote path else path in
           let qsl := finish_query_items o qsl in
           let frag := if n_quoted o then safely_quote frag else frag in
-          Ok (NSplit {| scheme := sch; netloc := lower (unsplit_netloc user pass host prt); path := path;
+          Ok (NSplit {| scheme := sch; netloc := unsplit_netloc user pass (match host with Some h => Some (lower h) | None => None end) prt; path := path;
                         query := safe_serialize_qsl qsl; fragment := frag |} has_proto)
       end
   end.
@@ -197,8 +197,8 @@ Definition normalize_url (e : env) (o : n_opts) (url : str) : res str :=
 
 (* normalize_hostname / get_normalized_hostname *)
 Definition normalize_hostname (e : env) (amp : bool) (h : str) : res str :=
-  let h := lower (strip h) in
   let h := strip_controls h in
+  let h := lower (strip h) in
   let o := {| sort_query := true; strip_authentication := true; strip_trailing_slash := true; strip_index := true;
               strip_protocol_o := true; strip_irrelevant_subdomains := true; strip_fragment_o := FragExceptRouting;
               normalize_amp := amp; fix_common_mistakes := true; infer_redirection_o := true; n_quoted := false; lang_filter := false |} in
